@@ -87,10 +87,41 @@ def triple_fails(leaves, triples):
     return fails, nq
 
 
-def roundtrip_fails(shape):
-    t = Tree(nwk(shape) + ";", format=1)
+ODD_LABELS = {"a": "dnaA:1", "b": "E. coli (K12)", "c": "x;y", "d": "p,q", "e": "kind=rRNA [16S]", "f": "tab\there"}
+
+
+def build_ete(shape, rename=None):
+    """ete3 tree built node by node (labels never pass through a Newick string)."""
+    def rec(x, node):
+        if isinstance(x, str):
+            node.name = (rename or {}).get(x, x)
+            return
+        for c in x:
+            rec(c, node.add_child())
+    root = Tree()
+    rec(shape, root)
+    return root
+
+
+def relabel(shape, rename):
+    return rename.get(shape, shape) if isinstance(shape, str) else tuple(relabel(c, rename) for c in shape)
+
+
+def roundtrip_fails(shape, odd=False):
+    if odd:
+        # leaf labels with characters that are special in Newick: legal when trees are built programmatically
+        t = build_ete(shape, ODD_LABELS)
+        shape = relabel(shape, ODD_LABELS)
+    else:
+        t = Tree(nwk(shape) + ";", format=1)
+    before = ete_clades(t)
     leaves, triples = tree_to_triples(t)
     fails = []
+    if ete_clades(t) != before:
+        fails.append("tree_to_triples modified its argument")
+    if sorted(leaves) != sorted(CL._leaves(shape)):
+        fails.append(f"tree_to_triples reports leaves {sorted(leaves)}, the tree has {sorted(CL._leaves(shape))}")
+        return fails
     back = tree_from_triples(leaves, triples)
     if back is None:
         return ["tree_from_triples(tree_to_triples(t)) is None"]
@@ -142,6 +173,13 @@ def supertree_fails(shapes):
                 break
     alls = all_supertrees(trees)
     cs = [frozenset(ete_clades(o)) for o in alls]
+    # the routines accept any iterable of trees: a one-shot iterator must give the same answers as a list
+    st_it = supertree(iter([Tree(nwk(s) + ";", format=1) for s in shapes]))
+    if (st_it is None) != (st is None):
+        fails.append(f"supertree(iterator) returns {'a tree' if st_it is not None else 'None'} where supertree(list) returns {'a tree' if st is not None else 'None'}")
+    all_it = all_supertrees(t_ for t_ in [Tree(nwk(s) + ";", format=1) for s in shapes])
+    if sorted(map(sorted, (map(sorted, c) for c in [frozenset(ete_clades(o)) for o in all_it]))) != sorted(map(sorted, (map(sorted, c) for c in cs))):
+        fails.append(f"all_supertrees(generator) returns {len(all_it)} tree(s), all_supertrees(list) returns {len(alls)}")
     for o in alls:
         if sorted(l.name for l in o.iter_leaves()) != leaves:
             fails.append(f"all_supertrees returns a tree with leaves {sorted(l.name for l in o.iter_leaves())}, the input trees have {leaves}")
@@ -298,9 +336,9 @@ def worker(item):
                                       "signature": {"kind": "triples", "leaves": item["leaves"], "triples": item["triples"]},
                                       "data": {"what": "triples", "leaves": item["leaves"], "triples": item["triples"]}, "confirmed": True})
     elif k == "roundtrip":
-        fails = roundtrip_fails(R_totuple(item["shape"]))
-        out["obligations"] = 3
-        out["discharged"] = 0 if fails else 3
+        fails = roundtrip_fails(R_totuple(item["shape"])) + [f"with Newick-special characters in the labels: {f}" for f in roundtrip_fails(R_totuple(item["shape"]), odd=True)]
+        out["obligations"] = 6
+        out["discharged"] = 0 if fails else 6
         if fails:
             out["violations"].append({"kind": "roundtrip", "text": f"{fails} for tree {item['shape']}", "signature": {"kind": "roundtrip", "shape": item["shape"]},
                                       "data": {"what": "roundtrip", "shape": item["shape"]}, "confirmed": True})
@@ -357,7 +395,7 @@ def replay(data):
     if w == "triples":
         fails, _ = triple_fails(data["leaves"], [tuple(t) for t in data["triples"]])
     elif w == "roundtrip":
-        fails = roundtrip_fails(R_totuple(data["shape"]))
+        fails = roundtrip_fails(R_totuple(data["shape"])) + roundtrip_fails(R_totuple(data["shape"]), odd=True)
     elif w == "supertree":
         fails = supertree_fails([R_totuple(s) for s in data["shapes"]])
     elif w == "history":
@@ -452,6 +490,8 @@ def main(argv=None):
                   "disjoint sets": f"every history of length <= {3 if q else 4} of unite(a,b) on 5 elements (a = b included); every forest parent array on {4 if q else 5} elements x ranks in {{0,1}} x every unite"}
     rep.assumptions = ["tree shapes / triple sets are enumerated; z3 decides membership, distinctness and completeness of the returned SETS of trees, and existence",
                        "the disjoint-set sub-claim has no numeric or set-valued output to hand to a solver: it is decided by exhaustive enumeration (stated)"]
+    rep.bounds["labels"] = "plain letters, and (round trip) labels containing : ; ( ) , [ ] = space and tab on trees built node by node"
+    rep.bounds["iterables"] = "supertree / all_supertrees are called with a list, a one-shot iterator and a generator"
     rep.outside = ["more than 6 leaves", "leaf labels that are not distinct strings"]
     return rep.finish(
         explanation="Sets of trees returned by the triple/supertree routines are decided by z3 against a declarative clade specification (each output a model, "
